@@ -88,18 +88,25 @@ def compare(rec, b, mjm, mjd, m, d, cmp, opts):
     return "skip:nv0"
   nsteps = opts.get("nsteps", 3)
   # implicit integrators need d(force)/d(velocity) of every actuator; the muscle force-length-velocity gain has one (known finding F21)
+  rot = bool(((mjm.jnt_type == mujoco.mjtJoint.mjJNT_FREE) | (mjm.jnt_type == mujoco.mjtJoint.mjJNT_BALL)).any())
+  tag0 = "@implicitfast_rotational" if (mjm.opt.integrator == mujoco.mjtIntegrator.mjINT_IMPLICITFAST and rot) else ""
   tag = "@muscle_implicit" if (mjm.opt.integrator in (mujoco.mjtIntegrator.mjINT_IMPLICIT, mujoco.mjtIntegrator.mjINT_IMPLICITFAST)
-                               and (mjm.actuator_gaintype == mujoco.mjtGain.mjGAIN_MUSCLE).any()) else ""
+                               and (mjm.actuator_gaintype == mujoco.mjtGain.mjGAIN_MUSCLE).any()) else tag0
   for k in range(nsteps):
     mujoco.mj_step(mjm, mjd)
     mjw.step(m, d)
     if not np.isfinite(mjd.qacc).all() or mjd.warning.number.any() or np.abs(mjd.qvel).max() > 100.0:
       return "skip:reference_unstable"
     tol = opts["tol"] * (k + 1)
+    # when constraint rows are active the acceleration is a float32 solver output (repository tolerance 5e-3 relative): the state
+    # inherits dt * that error
+    dt = mjm.opt.timestep
+    qa = float(np.abs(mjd.qacc).max()) if mjd.nefc else 0.0
+    sc = {"qvel": 25 * dt * qa, "qpos": 25 * dt * dt * qa + 25 * dt * dt * qa * (k), "qacc_warmstart": qa, "act": 0.0, "time": 0.0}
     for w in range(d.nworld):
       for f in FIELDS:
         g = getattr(d, f).numpy()[w]
-        cmp.close(f + tag, g, getattr(mjd, f), tol * (10 if f == "qacc_warmstart" else 1))
+        cmp.close(f + tag, g, getattr(mjd, f), tol * (10 if f == "qacc_warmstart" else 1), scale=sc[f] * (k + 1))
 
 
 def run(ctx: core.Ctx):
